@@ -6,6 +6,7 @@ import (
 	"math/rand"
 	"os"
 	"path/filepath"
+	"regexp"
 	"sort"
 	"strings"
 	"time"
@@ -73,6 +74,9 @@ func c19Tokens(n *canon.Node, out *[]string) {
 
 // c19SameEvent compares two trace events; error objects are compared by their message text as well (the text a
 // program obtains from a caught error must not depend on the route).
+// c19PosRE matches position prefixes ("module§1…2,3…4: ", "§1…1,2…3: ") anywhere in an error text.
+var c19PosRE = regexp.MustCompile(`\S*§\S*: `)
+
 func c19SameEvent(a, b *canon.Node) bool {
 	if !c12SameModuloGensym(a, b) {
 		return false
@@ -197,6 +201,13 @@ func c19Compare(c *fw.Ctx, ref, x c19Result, layout string, input string) bool {
 	for i := range x.trace {
 		if !c19SameEvent(x.trace[i], ref.trace[i]) {
 			c.Violate(fw.Violation{Key: "trace:" + key, What: fmt.Sprintf("trace event %d: route %s %s, route %s %s", i, ref.route, canon.Render(ref.trace[i]), x.route, canon.Render(x.trace[i])), Input: input})
+			return false
+		}
+	}
+	if ref.err != nil && x.err != nil && ref.thrown == nil && x.thrown == nil {
+		// the error a program ends with is part of what it means: same text on every route, positions aside
+		if a, b := c19PosRE.ReplaceAllString(ref.err.Error(), ""), c19PosRE.ReplaceAllString(x.err.Error(), ""); a != b {
+			c.Violate(fw.Violation{Key: "error-text:" + key, What: fmt.Sprintf("route %s ends with the error %q, route %s with %q (positions removed)", ref.route, a, x.route, b), Input: input})
 			return false
 		}
 	}
